@@ -103,7 +103,8 @@ CLAIMED = {
         text='Partial. Theorems: include-directory lookup, register membership and the address sort are invariant under the '
              'orderings the code leaves to hash order; the model has no hidden input. Observed: fresh CLI processes under different '
              'hash seeds, environments, working directories and include-directory orders produce byte-identical images, listings '
-             'and hex outputs (and equal the model).',
+             'and hex outputs (and equal the model), including inputs that are rejected (ambiguous include names, symbols defined '
+             'twice through different routes).',
         ref='DESIGN.md §6 C15', technique='Coq permutation-invariance proofs + multi-process determinism oracle',
         note='The interpreter hash function itself is only sampled over seeds.'),
     'C16': dict(
@@ -123,12 +124,14 @@ CLAIMED = {
              'plus the whole-program correspondence with nested includes and include faults.',
         ref='DESIGN.md §6 C17', technique='Coq proofs over reader model + whole-program correspondence + split-vs-pasted oracle'),
     'C18': dict(
-        text='Partial. Theorems: letter case of mnemonics and of register operands carries no meaning in the matching model. '
-             'Whitespace, tabs, comments, blank lines, label placement and several instructions per line are layout applied by the '
-             'renderer: the implementation fed randomly laid-out text must still agree with the layout-free model, and a relayout '
-             'oracle compares canonical vs re-laid-out text on the implementation directly.',
-        ref='DESIGN.md §6 C18', technique='Coq proofs (case-insensitivity) + layout correspondence + relayout oracle',
-        note='The line-splitting regular expressions are exercised, not modelled.'),
+        text='Partial. Theorems: letter case of mnemonics and of register operands carries no meaning in the matching model; in the '
+             'model of the line splitter a statement text whose quotes all close is read the same whatever comment follows it, '
+             'indentation and trailing whitespace change nothing, and a semicolon inside a complete string is statement text. '
+             'The splitter model is tied to the real reader on generated lines; blank lines, label placement and several '
+             'instructions per line are layout applied by the renderer: the implementation fed randomly laid-out text must still '
+             'agree with the layout-free model, and a relayout oracle compares canonical vs re-laid-out text on the implementation.',
+        ref='DESIGN.md §6 C18', technique='Coq proofs (case-insensitivity, line splitter) + splitter and layout correspondence + relayout oracle',
+        note='The patterns that cut a statement text into label / directive / instructions are exercised, not modelled.'),
     'C19': dict(
         text='Partial. Theorems: the validator accepts a definition iff it is well-formed (sections, keyword clashes, macro/instruction '
              'clash ignoring letter case, declared operand sets and registers, operand counts vs both kinds of operand list, '
@@ -143,7 +146,9 @@ CLAIMED = {
         text='Partial. Theorem: the alternation pattern the generator substitutes, searched in an identifier, matches iff the '
              'identifier is in the vocabulary (any vocabulary of word-character names, any identifier). Well-formedness of the '
              'generated JSON/plist/YAML/zip files, absence of template placeholders and classification by the emitted patterns '
-             '(run with Python re) are checked on generated vocabularies with prefixes, regex metacharacters and mixed-case keys.',
+             '(run with Python re) are checked on generated vocabularies with prefixes, regex metacharacters, underscores and mixed-case '
+             'keys; a register written as an operand must be taken by the register rule under first-rule-at-leftmost-position '
+             'evaluation of both grammars\' operand contexts.',
         ref='DESIGN.md §6 C20', technique='Coq proof (pattern classifies exactly the vocabulary) + generator correspondence on generated vocabularies',
         note='Editor regex engines (Oniguruma) are stood in for by Python re.'),
 }
